@@ -34,7 +34,7 @@ from octave_mcp.core.ast_nodes import (
 from octave_mcp.core.emitter import emit
 from octave_mcp.core.gbnf_compiler import GBNFCompiler
 from octave_mcp.core.hydrator import resolve_hermetic_standard
-from octave_mcp.core.lexer import LexerError, tokenize
+from octave_mcp.core.lexer import FENCE_PATTERN, LexerError, tokenize
 from octave_mcp.core.parser import ParserError, parse, parse_with_warnings
 from octave_mcp.core.repair import repair
 from octave_mcp.core.repair_log import LiteralZoneRepairLog
@@ -182,25 +182,28 @@ class WriteTool(BaseTool):
         # 3. Comments (// to end of line)
         protected: list[tuple[int, int]] = []
 
-        # Find literal zone boundaries (``` fences)
-        in_fence = False
+        # Find literal zone boundaries with the lexer's own rules: a zone is closed only by a
+        # fence line of the opening length with nothing after it; a shorter backtick run
+        # inside an open zone is content (it must not end the protected range).
+        open_marker: str | None = None
         fence_start = 0
         offset = 0
         for line in content.split("\n"):
             line_start = offset
             offset += len(line) + 1  # +1 for the newline separator
-            stripped = line.strip()
-            if stripped.startswith("```"):
-                if not in_fence:
-                    in_fence = True
-                    fence_start = line_start
-                else:
-                    in_fence = False
-                    fence_end = line_start + len(line)
-                    protected.append((fence_start, fence_end))
+            fence_match = FENCE_PATTERN.match(line)
+            if fence_match is None:
+                continue
+            if open_marker is None:
+                open_marker = fence_match.group(3)
+                fence_start = line_start
+            elif len(fence_match.group(3)) == len(open_marker) and not (fence_match.group(4) or "").strip():
+                open_marker = None
+                fence_end = line_start + len(line)
+                protected.append((fence_start, fence_end))
 
         # If fence was never closed, protect from fence_start to end
-        if in_fence:
+        if open_marker is not None:
             protected.append((fence_start, len(content)))
 
         # Find quoted strings: text between "" on a line (after ::)
